@@ -1887,6 +1887,20 @@ impl AppState {
             path,
         })
     }
+    /// Non-existence proof of `key` in the bank tree from its lexicographic neighbours (the key
+    /// itself, if present, is skipped: that is the forged variant). None for an empty tree.
+    fn bank_nonexist(&self, key: &[u8]) -> Option<ics23::NonExistenceProof> {
+        let left = self.bank.range::<[u8], _>((std::ops::Bound::Unbounded, std::ops::Bound::Excluded(key))).next_back().and_then(|(k, _)| self.bank_proof(k));
+        let right = self
+            .bank
+            .range::<[u8], _>((std::ops::Bound::Excluded(key), std::ops::Bound::Unbounded))
+            .next()
+            .and_then(|(k, _)| self.bank_proof(k));
+        if left.is_none() && right.is_none() {
+            return None;
+        }
+        Some(ics23::NonExistenceProof { key: key.to_vec(), left, right })
+    }
     /// Existence proof of the bank store's root under the multistore root.
     fn store_proof(&self) -> ics23::ExistenceProof {
         let leaves = self.store_leaves();
@@ -1947,6 +1961,7 @@ fn tamper_name(t: u32) -> &'static str {
         21 => "proof_ops_missing",
         22 => "error_code",
         23 => "bank_path_truncated_to_subroot",
+        101 => "absent_in_empty_bank_store",
         _ => "forged_value_for_absent_account",
     }
 }
@@ -2011,7 +2026,21 @@ impl BalNode {
             // The account has no balance entry. (A real node attaches a non-existence proof; the
             // client does not look at it.) Tampering with an absent entry: forge a value.
             let applied = if tamper == 0 {
-                0
+                // what a real node answers: empty value, non-existence proof under the bank root,
+                // existence proof of the bank root under the app hash
+                match self.honest.bank_nonexist(&key) {
+                    Some(ne) => {
+                        let op0 = ProofOp {
+                            r#type: "ics23:iavl".into(),
+                            key: key.clone(),
+                            data: ics23::CommitmentProof { proof: Some(ics23::commitment_proof::Proof::Nonexist(ne)) }.encode_to_vec(),
+                        };
+                        resp.proof_ops = Some(ProofOps { ops: vec![op0, exist_op("ics23:simple", self.honest.store_proof())] });
+                        0
+                    }
+                    // empty bank store: nothing to prove absence against in this model
+                    None => 101,
+                }
             } else {
                 // claim a balance, with the proof of some other account if there is one
                 resp.value = b"777".to_vec();
@@ -2047,6 +2076,9 @@ impl BalNode {
             Extra,
             Batch,
             NonExist,
+            /// a non-existence proof assembled from the key's real neighbours (the key itself
+            /// sits between them)
+            ForgedAbsence,
             Missing,
         }
         let mut shape = Shape::Normal;
@@ -2069,7 +2101,12 @@ impl BalNode {
                 value = changed_value(&value);
                 ep0.value = value.clone();
             }
-            3 => value = Vec::new(),
+            3 => {
+                value = Vec::new();
+                if ctx.coin("tamper.forged_absence", 600) {
+                    shape = Shape::ForgedAbsence;
+                }
+            }
             4 => {
                 value = Vec::new();
                 shape = Shape::Missing;
@@ -2141,6 +2178,14 @@ impl BalNode {
                     proof: Some(ics23::commitment_proof::Proof::Batch(ics23::BatchProof {
                         entries: vec![ics23::BatchEntry { proof: Some(ics23::batch_entry::Proof::Exist(ep0.clone())) }],
                     })),
+                }
+                .encode_to_vec(),
+                Shape::ForgedAbsence => ics23::CommitmentProof {
+                    proof: Some(ics23::commitment_proof::Proof::Nonexist(self.honest.bank_nonexist(&key).unwrap_or(ics23::NonExistenceProof {
+                        key: key.clone(),
+                        left: None,
+                        right: None,
+                    }))),
                 }
                 .encode_to_vec(),
                 Shape::NonExist => ics23::CommitmentProof {
@@ -2333,7 +2378,7 @@ async fn run_balance(ctx: &Arc<RunCtx>) {
             unmodelled("no_query_seen", format!("query {q}"));
             continue;
         };
-        if applied != 0 {
+        if applied != 0 && applied != 101 {
             ctx.fault(tamper_name(applied));
         }
         // Ok(balance) => (key, value) is in the honest tree whose root is the header's app hash,
